@@ -94,5 +94,18 @@ pub fn run(cfg: &RunCfg) -> i32 {
         opts(),
         classify,
     );
+    if cfg.tier == crate::util::Tier::Thorough && !check.has_violation() {
+        crate::fuzzrun::run_campaign(
+            &mut check,
+            cfg,
+            &crate::fuzzrun::Campaign {
+                target: "store_ops",
+                server_feature: true,
+                runs: (2_000_000.0 * cfg.scale) as u64,
+                max_len: 400,
+                rule: "coverage guided libFuzzer campaign: bytes are decoded (arbitrary::Unstructured) into a history of up to 60 requests that runs through the same interpreter and reference-model oracle (full read-back, events, ls-subscriptions, folds); evaluations = executed inputs, distinct non-trivial = inputs that reached new coverage",
+            },
+        );
+    }
     check.finish()
 }
